@@ -220,7 +220,7 @@ def tlc_mc(module, cfg, wdir, workers=8, timeout=900, lib=None):
     return res
 
 
-def tlc_sim(module, cfg, wdir, num, depth, seed, timeout=300):
+def tlc_sim(module, cfg, wdir, num, depth, seed, timeout=900):
     """Simulation with behaviour export: returns a list of behaviours (lists of call records)."""
     os.makedirs(wdir, exist_ok=True)
     meta = os.path.join(wdir, "meta_sim_" + os.path.basename(cfg))
@@ -229,8 +229,7 @@ def tlc_sim(module, cfg, wdir, num, depth, seed, timeout=300):
            os.path.join(SPEC, module + ".tla")]
     rc, out, dt = sh(cmd, cwd=wdir, env={"JAVA_TOOL_OPTIONS": "-Xss512m"}, timeout=timeout)
     shutil.rmtree(meta, ignore_errors=True)
-    if rc == 124:
-        raise ToolError(f"TLC simulation timed out on {module}/{cfg}")
+    # (a simulation that runs out of time is not a failure: the behaviours exported so far are used)
     if re.search(r"is violated|Error: ", out) and "REPLAY" not in out:
         raise ToolError(f"TLC simulation failed on {module}/{cfg}:\n" + out[-3000:])
     behs = []
